@@ -178,7 +178,31 @@ Theorem C16_selKey_getters : forall c : config,
   (config_get_str name_selection_keys c = SError <-> exists k, In k (get_selKey c) /\ as_u8 k = 0%N).
 Proof. exact get_str_selkeys_spec. Qed.
 
+(* deprecated chewing_Configure = the named options / chewing_set_selKey, in the order of its body *)
+Theorem C16_Configure : forall (p : config_data) (c : config),
+  chewing_Configure p c =
+  fold_left (fun c (f : config -> config) => f c)
+    [ (fun c => snd (config_set_int (iopt_name OCandidatesPerPage) (cd_cand_per_page p) c));
+      (fun c => snd (config_set_int (iopt_name OAutoCommitThreshold) (cd_max_chi_symbol_len p) c));
+      set_selKey (Some (cd_sel_key p)) c_MAX_SELKEY;
+      (fun c => snd (config_set_int (iopt_name OUserPhraseAddDirection) (cd_add_phrase_forward p) c));
+      (fun c => snd (config_set_int (iopt_name OSpaceIsSelectKey) (cd_space_as_selection p) c));
+      (fun c => snd (config_set_int (iopt_name OEscClearAllBuffer) (cd_esc_clean_all_buf p) c));
+      (fun c => snd (config_set_int (iopt_name OAutoShiftCursor) (cd_auto_shift_cur p) c));
+      (fun c => snd (config_set_int (iopt_name OEasySymbolInput) (cd_easy_symbol_input p) c));
+      (fun c => snd (config_set_int (iopt_name OPhraseChoiceRearward) (cd_phrase_choice_rearward p) c)) ] c.
+Proof. exact configure_is_named. Qed.
+
+(* "rejects bad values", over ALL operation sequences: whatever is called in whatever order (valid or
+   invalid values, aliases, chewing_Configure, key input), every integer option always reads a value of
+   its documented range *)
+Theorem C16_options_always_in_range : forall (ops : list op) (o : iopt),
+  in_range o (config_get_int (iopt_name o) (run ops init_config)).
+Proof. exact options_always_in_range. Qed.
+
 Print Assumptions C16_source_tables.
+Print Assumptions C16_options_always_in_range.
+Print Assumptions C16_Configure.
 Print Assumptions C16_has_option.
 Print Assumptions C16_set_int_in_range.
 Print Assumptions C16_set_int_out_of_range.
@@ -265,6 +289,14 @@ Proof.
   cbv zeta. repeat split; try (vm_compute; reflexivity).
   unfold cstring. vm_compute. intros H. repeat destruct H as [H|H]; try discriminate. exact H.
 Qed.
+
+(* a history full of rejected values: the options stay inside their ranges, the accepted ones stick *)
+Example C16_ex_always_in_range :
+  let c := run [OpSetInt "chewing.candidates_per_page" 11; OpLegacySet LCandPerPage 0; OpSetInt "chewing.candidates_per_page" 3;
+                OpLegacySet LMaxChiSymbolLen (-1); OpSetInt "chewing.conversion_engine" 3; OpSetInt "chewing.conversion_engine" 2;
+                OpConfigure (mkConfigData 99 40 [1;2;3] 7 1 1 1 1 1)] init_config in
+  map (fun o => config_get_int (iopt_name o) c) all_iopts = [0; 0; 1; 3; 1; 1; 1; 39; 1; 0; 1; 2; 1].
+Proof. reflexivity. Qed.
 
 (* an unvalidated zero key set through chewing_set_selKey: config_get_str reports an error *)
 Example C16_ex_selKey_zero :
